@@ -69,12 +69,30 @@ def e_extract(html: str, deps) -> str:
 
 # ------------------------------------------------------------------ the regex, read from the source
 def source_pattern() -> str:
-    """the literal assigned to `pattern` in HTMLTextDocument._static_extract_serialized_html_deps"""
-    src = textwrap.dedent(inspect.getsource(HTMLTextDocument._static_extract_serialized_html_deps))
-    for node in ast.walk(ast.parse(src)):
-        if isinstance(node, ast.Assign) and any(isinstance(t, ast.Name) and t.id == "pattern" for t in node.targets):
-            if isinstance(node.value, ast.Constant) and isinstance(node.value.value, str):
-                return node.value.value
+    """the regex HTMLTextDocument's extraction uses: the literal assigned to `pattern` in
+    _static_extract_serialized_html_deps, or — after a refactoring that hoists it — a module-level compiled pattern /
+    string constant of htmltools._core that mentions the serialised element's marker attribute"""
+    import htmltools._core as _core
+    try:
+        src = textwrap.dedent(inspect.getsource(HTMLTextDocument._static_extract_serialized_html_deps))
+        for node in ast.walk(ast.parse(src)):
+            if isinstance(node, ast.Assign) and any(isinstance(t, ast.Name) and t.id == "pattern" for t in node.targets):
+                if isinstance(node.value, ast.Constant) and isinstance(node.value.value, str):
+                    return node.value.value
+    except (OSError, TypeError, SyntaxError):
+        pass
+    for v in vars(_core).values():
+        if isinstance(v, re.Pattern) and "data-html-dependency" in v.pattern:
+            return v.pattern
+    for v in vars(_core).values():
+        if isinstance(v, str) and "data-html-dependency" in v and "(" in v:
+            return v
+    try:
+        for node in ast.walk(ast.parse(inspect.getsource(_core))):
+            if isinstance(node, ast.Constant) and isinstance(node.value, str) and "data-html-dependency" in node.value and "(" in node.value:
+                return node.value
+    except (OSError, SyntaxError):
+        pass
     raise RuntimeError("extraction pattern not found in the source")
 
 
